@@ -75,6 +75,64 @@ fn gen_cp_forms(ctx: &mut Ctx) -> Option<(String, Vec<String>)> {
     Some((CP_HOSTS[h].replace("@@", CP_FORMS[f]), vec![format!("cphost={}", h), format!("cpform={}", CP_FORMS[f])]))
 }
 
+/// Places where o2o forwards the user's tokens as they are, filled with forms on which the two parser libraries are
+/// known to differ when a *typed* parser (syn::Meta, syn::Lit, syn::Pat, syn::Expr, syn::Type ..) is put in the way
+/// (seeds C18-04: attribute contents through syn::Meta; C18-05: #[literal] through syn::Lit).
+const TOKEN_HOLES: &[(&str, &str, &[&str])] = &[
+    ("attribute", "#[map(T| attribute(@@))]\nstruct S { a: i32 }", META_FORMS),
+    ("impl_attribute", "#[into(T| impl_attribute(@@))]\nstruct S { a: i32 }", META_FORMS),
+    ("inner_attribute", "#[from(T| inner_attribute(@@))]\nstruct S { a: i32 }", META_FORMS),
+    ("attribute-enum", "#[try_map(T, Er| attribute(@@))]\nenum S { A, B(i32) }", META_FORMS),
+    ("literal", "#[map(T)]\nenum S { #[literal(@@)] A, #[pattern(_)] #[into({ todo!() })] B }", LIT_FORMS),
+    ("literal-dedicated", "#[map(T)]\nenum S { #[literal(T| @@)] A, #[pattern(_)] #[into({ todo!() })] B }", LIT_FORMS),
+    ("pattern", "#[from(T)]\nenum S { #[pattern(@@)] A, #[pattern(_)] B }", PAT_FORMS),
+    ("member-expr", "#[map(T)]\nstruct S { #[map({ @@ })] a: i32 }", EXPR_FORMS),
+    ("ghost-expr", "#[map(T)]\nstruct S { #[ghost({ @@ })] a: i32 }", EXPR_FORMS),
+    ("ghosts-expr", "#[map(T)]\n#[ghosts(g: { @@ })]\nstruct S { a: i32 }", EXPR_FORMS),
+    ("vars-expr", "#[map(T| vars(v: { @@ }))]\nstruct S { a: i32 }", EXPR_FORMS),
+    ("return-expr", "#[into(T| return @@)]\nstruct S { a: i32 }", EXPR_FORMS),
+    ("update-expr", "#[into(T| ..@@)]\nstruct S { a: i32 }", EXPR_FORMS),
+    ("default-case", "#[from(T| _ => @@)]\n#[ghosts(Y: { S::A })]\nenum S { A }", EXPR_FORMS),
+    ("as_type", "#[map(T)]\nstruct S { #[o2o(as_type(@@))] a: i32 }", TYPE_FORMS),
+    ("counterpart", "#[map(@@)]\nstruct S { a: i32 }", TYPE_FORMS),
+    ("error-type", "#[try_map(T, @@)]\nstruct S { a: i32 }", TYPE_FORMS),
+    ("child_parents-type", "#[into(T)]\n#[child_parents(p: @@)]\nstruct S { #[child(p)] a: i32 }", TYPE_FORMS),
+    ("where_clause", "#[map(T)]\n#[where_clause(@@)]\nstruct S<X> { a: X }", WHERE_FORMS),
+];
+const META_FORMS: &[&str] = &[
+    "inline", "inline(always)", "cfg(any(a, b))", "doc = \"x\"", "doc = concat!(\"a\", \"b\")", "doc = include_str!(\"x.md\")", "tracing::instrument(level = Level::DEBUG, fields(id = self.id))",
+    "cfg_attr(test, allow(unused))", "allow(clippy::all)", "deprecated(since = \"1\", note = \"n\")", "must_use = \"m\"", "a::b::c", "x(1 + 2)", "x(y = -1)", "x(y = 1u8..2)", "rustfmt::skip",
+    "x(unsafe)", "x { y }", "x[y]", "x = y::Z", "unsafe(no_mangle)",
+];
+const LIT_FORMS: &[&str] = &[
+    "1", "-1", "1u8", "1_000", "0x1F", "0b1", "1.5", "1e3", "1f32", "'a'", "'\\n'", "\"s\"", "r\"s\"", "r#\"s\"#", "b\"s\"", "br\"s\"", "b'a'", "true", "c\"s\"", "cr\"s\"", "u8::MAX", "X", "m::X", "-1.5", "{ 1 }", "(1)",
+];
+const PAT_FORMS: &[&str] = &[
+    "1", "-1", "1..=2", "1..", "..=2", "'a'..='z'", "\"a\" | \"b\"", "| 1 | 2", "_", "n", "n if n > 1", "n @ 1..=5", "n @ (1 | 2)", "&1", "(1, _)", "[a, ..]", "[1, .., 2]", "m::X", "X { a, .. }", "X(..)", "ref n", "mut n",
+    "const { 1 }", "m!()", "(1 | 2)", "..", "Some(1 | 2)", "&mut n", "box n", "1 ..= 2 | 4",
+];
+const EXPR_FORMS: &[&str] = &[
+    "1", "-1", "a + b", "f(x)", "x.y.z", "x.0.1", "|a| a + 1", "move |a: i32| -> i32 { a }", "async { 1 }", "async move { 1 }", "unsafe { f() }", "'l: loop { break 'l 1 }", "if a { 1 } else { 2 }",
+    "match a { 1 => 2, _ => 3 }", "<T as X>::f()", "T::<i32>::f()", "m![1, 2]", "m! { a }", "x as u8", "&x", "&mut x", "*x", "x?", "x.await", "r#type", "r#try", "a..=b", "..", "a..", "[1, 2]", "[0; 4]", "(1, 2)", "()",
+    "X { a: 1, ..y }", "#[cfg(x)] 1", "let a = 1", "{ let a = 1; a }", "a = 1", "a += 1", "return 1", "break", "1u8", "1.5e3", "b\"s\"", "c\"s\"", "'a'", "a.b::<c>()", "x[1]", "!x", "a && b || c", "a << 2", "try { 1 }",
+    "const { 1 }", "yield 1", "loop {}", "while a {}", "for a in b {}", "a < b > c", "||{}", "static || 1", "do yeet 1", "&raw const x", "builtin # offset_of(a, b)",
+];
+const TYPE_FORMS: &[&str] = &[
+    "i32", "m::T", "T<i32>", "T::<i32>", "T<'a>", "T<'static>", "T<'_>", "T<1>", "T<{ 1 }>", "T<-1>", "T<A = B>", "T<A: B>", "<T as X>::Y", "[u8; 4]", "[u8]", "&'static str", "&mut T", "*const T", "dyn Tr", "dyn Tr + Send",
+    "impl Tr", "fn(i32) -> i32", "(i32, i16)", "()", "!", "_", "T<(i32, i16)>", "T<[u8; 4]>", "T<dyn Tr>", "::m::T", "crate::T", "self::T", "super::T", "Self", "T<fn(i32)>", "m::T<i32>::U", "T<T<T<i32>>>", "T<i32,>", "T<>",
+    "T(i32) -> i32", "Fn(i32) -> i32", "m!()", "T<A = (B, C)>", "for<'a> fn(&'a i32)", "T<'a, 'a>", "unsafe extern \"C\" fn()",
+];
+const WHERE_FORMS: &[&str] = &[
+    "X: Clone", "X: Clone + Copy", "X: ?Sized", "X: 'static", "'a: 'b", "for<'a> X: Tr<'a>", "X: for<'a> Tr<'a>", "X: Tr<A = i32>", "X: m::Tr", "[X; 2]: Tr", "<X as Tr>::Y: Clone", "X: ~const Tr", "X: Clone,", "X: Clone, X: Copy",
+    "X:", "(): Tr", "X: Fn(i32) -> i32", "X: Tr<{ 1 }>", "X: !Tr", "X: const Tr", "i32: Into<X>", "X = i32", "X: Tr + ?Sized + 'static",
+];
+
+fn gen_token_forms(ctx: &mut Ctx) -> Option<(String, Vec<String>)> {
+    let (hole, host, forms) = TOKEN_HOLES[ctx.choose(TOKEN_HOLES.len())];
+    let f = forms[ctx.choose(forms.len())];
+    Some((host.replace("@@", f), vec![format!("hole={}", hole), format!("form={}", f)]))
+}
+
 fn o2o_messages(x: &Xp) -> Vec<String> {
     // o2o-authored configuration diagnostics: everything under the root error (parser-library wording is exempt)
     match x {
@@ -113,6 +171,8 @@ pub fn run(tier: &str) -> i32 {
     let st = explore(gen_attr_forms, None, &caps, |ch, (src, tags)| push("attr-forms", ch, tags, src));
     rep.add_stats("attr-forms", "full", &st);
     let st = explore(gen_cp_forms, None, &caps, |ch, (src, tags)| push("child-parents-forms", ch, tags, src));
+    let st2 = explore(gen_token_forms, None, &caps, |ch, (src, tags)| push("token-forms", ch, tags, src));
+    rep.add_stats("token-forms", "full", &st2);
     rep.add_stats("child-parents-forms", "full", &st);
     let mut ins = ins.into_inner().unwrap();
     ins.sort_by(|a, b| (&a.space, &a.choices).cmp(&(&b.space, &b.choices)));
